@@ -59,25 +59,42 @@ func scheduleHistory(rng *rand.Rand, out *Out) {
 		}
 	}
 	tag := "live"
+	// warm every cache of the long-running node on the branch it is about to leave: the schedule of every slot up to
+	// two ticks past the frontier is asked BEFORE the reorganisation (a schedule remembered from the abandoned branch
+	// must not survive the switch); asked again afterwards and compared with a restarted node
+	warmBefore := func() {
+		fr := frontierOf(nd.Ch)
+		for ts := genesisTs; ts <= int64(fr.TimestampUnix)+700; ts += 10 {
+			if rng.Intn(3) != 0 {
+				observeProducer(nd.Cs, ts)
+			}
+		}
+		out.Count("schedule:asked-before-reorg")
+	}
 	// reorganisation: drop up to 30 momentums, grow another branch past two ticks so that later elections
 	// take their proof momentum from the new branch
-	if rng.Intn(2) == 0 {
-		fr := frontierOf(nd.Ch)
-		k := uint64(1 + rng.Intn(30))
-		if k >= fr.Height {
-			k = fr.Height - 1
-		}
-		if k > 0 {
-			target, _ := nd.Ch.GetFrontierMomentumStore().GetMomentumByHeight(fr.Height - k)
-			if err := rollbackTo(nd.Ch, target.Identifier()); err != nil {
-				panic(err)
+	for round := 0; round < 2; round++ {
+		if rng.Intn(3) != 0 {
+			if rng.Intn(4) != 0 {
+				warmBefore()
 			}
-			l.record()
-			for s := 0; s < 5+rng.Intn(20); s++ {
-				l.step(rng, out)
+			fr := frontierOf(nd.Ch)
+			k := uint64(1 + rng.Intn(30))
+			if k >= fr.Height {
+				k = fr.Height - 1
 			}
-			tag = "reorganised"
-			out.Count(fmt.Sprintf("schedule:reorg-depth-%02d", k))
+			if k > 0 {
+				target, _ := nd.Ch.GetFrontierMomentumStore().GetMomentumByHeight(fr.Height - k)
+				if err := rollbackTo(nd.Ch, target.Identifier()); err != nil {
+					panic(err)
+				}
+				l.record()
+				for s := 0; s < 5+rng.Intn(20); s++ {
+					l.step(rng, out)
+				}
+				tag = "reorganised"
+				out.Count(fmt.Sprintf("schedule:reorg-depth-%02d", k))
+			}
 		}
 	}
 	fr := frontierOf(nd.Ch)
